@@ -8,6 +8,7 @@ from collections.abc import Callable
 from typing import Any, ParamSpec, TypeVar, overload
 
 from .analysis import Reachability, SyntaxCheck
+from .analysis.syntax_check import bound_names
 from .ast import EffectStmt, FuncMeta, NamedId
 from .env import ForeignEnv
 from .frontend import Parser
@@ -187,9 +188,6 @@ def _apply_fpy_decorator(
     # get defining environment
     cvars = inspect.getclosurevars(func)
     cfree_vars = cvars.nonlocals.keys() | cvars.globals.keys() | cvars.builtins.keys()
-    # `getclosurevars` also reports attribute names (the `round` of
-    # `fp.round`): a name the function assigns is a local of it, never captured
-    cfree_vars = cfree_vars - set(func.__code__.co_varnames)
     env = _function_env(func)
 
     # set of free variables as `NamedId`
@@ -198,6 +196,12 @@ def _apply_fpy_decorator(
     # parse the source as an FPy function
     parser = Parser(src_name, lines, env, start_line=start_line, col_offset=col_offset)
     ast, _ = parser.parse_function(env)
+
+    # `getclosurevars` also reports attribute names (the `round` of
+    # `fp.round`): a name the function binds itself is a local of it, never
+    # captured.  (Not `co_varnames`: it lists comprehension variables too,
+    # which shadow a captured name only inside their comprehension.)
+    free_vars -= bound_names(ast)
 
     if decorator == pattern:
         # syntax checking
